@@ -14,6 +14,9 @@
   pipeline <batch> <n> <order> <scorer> <allowed> <raw screen…>
         every chunk 0..n-1 through `cliCalculateScores`, the files named in `order` (chunk indices, any
         sequence) through `cliSelectNextPlate`  → `ok <combined holder> sel=<text written>`
+  pipeline2 <scoreBatch> <batch> <n> <order> <scorer> <allowed> <raw screen…>
+        as `pipeline`, but the chunk files were computed for `scoreBatch` (an earlier batch) and the selection runs
+        with `batch` (stale score files)
 -/
 import Batchie.Model.Scores
 import Batchie.Model.ScreenIO
@@ -103,6 +106,28 @@ def handle : List String → Option String
       | .ok s =>
         let file := s.save
         match (List.range n).mapM (fun i => cliCalculateScores file batch n i sc) with
+        | .error e => pure ("score-" ++ showErr e)
+        | .ok files =>
+          match order.mapM (fun i => files[i]?) with
+          | none => none
+          | some chosen =>
+            let combined := Holder.concat (chosen.map Holder.load)
+            let sel := cliSelectNextPlate file chosen pol batch
+            pure (showExcept showHolder combined ++ " sel=" ++ showExcept id sel)
+  | "pipeline2" :: scoreBatch :: batch :: n :: order :: scorer :: allowed :: rest => do
+      -- score files computed for an EARLIER batch (`scoreBatch`), selection run with the current `batch`
+      let scoreBatch ← parseIntList? scoreBatch
+      let batch ← parseIntList? batch
+      let n ← parseNat? n
+      let order ← parseNatList? order
+      let sc ← parseScorer? scorer
+      let pol ← parseAllowed? allowed
+      let r ← parseRaw? rest
+      match mk? r with
+      | .error e => pure ("parent-" ++ showErr e)
+      | .ok s =>
+        let file := s.save
+        match (List.range n).mapM (fun i => cliCalculateScores file scoreBatch n i sc) with
         | .error e => pure ("score-" ++ showErr e)
         | .ok files =>
           match order.mapM (fun i => files[i]?) with
